@@ -998,4 +998,55 @@ Qed.
 Theorem run_init_refines os : exists s obs d, run kcmp init os = Ok (s, obs) /\ Inv s /\ IdInv s /\ (d = false -> Clean s) /\
   fst (srun kcmp sinit os) = (abs s, d) /\ Forall2 obs_ok obs (snd (srun kcmp sinit os)).
 Proof. apply (run_refines os init false (Inv_init kcmp) IdInv_init (fun _ => Clean_init)). Qed.
+
+(* ---- corollaries in the form the property files quote ---- *)
+Theorem step_inv s o s' ob : Inv s -> IdInv s -> step kcmp s o = Ok (s', ob) -> Inv s' /\ IdInv s'.
+Proof. intros HInv HI H. destruct (step_refines s true o HInv HI ltac:(discriminate)) as (s2 & ob2 & d2 & E & A & B & _).
+  rewrite E in H. inversion H; subst. auto. Qed.
+Theorem step_total s o : Inv s -> IdInv s -> exists s' ob, step kcmp s o = Ok (s', ob).
+Proof. intros HInv HI. destruct (step_refines s true o HInv HI ltac:(discriminate)) as (s2 & ob2 & d2 & E & _). eauto. Qed.
+
+Lemma kcmp_refl a : kcmp a a = Eq.
+Proof. pose proof (kcmp_antisym a a) as H. destruct (kcmp a a); [reflexivity|discriminate|discriminate]. Qed.
+Lemma sorted_nodup_kv l : sorted node ncmp l -> NoDup (map kv l).
+Proof. induction l as [|a l IH]; [constructor|]. cbn [sorted map]. intros (Ha & Hs). constructor; [|auto].
+  intros Hin. apply in_map_iff in Hin as (b & Eb & Hb). rewrite Forall_forall in Ha. specialize (Ha b Hb).
+  unfold QTree.ncmp in Ha. unfold kv in Eb. inversion Eb as [[Ek Ev]]. rewrite Ek, kcmp_refl in Ha. discriminate. Qed.
+Lemma firstn_incl {A} n (l : list A) : incl (firstn n l) l.
+Proof. revert l. induction n as [|n IH]; intros l; [intros x []|]. destruct l as [|a l]; [intros x []|]. cbn [firstn].
+  intros x [<-|Hx]; [left; reflexivity|right; apply IH; exact Hx]. Qed.
+Lemma NoDup_firstn {A} n (l : list A) : NoDup l -> NoDup (firstn n l).
+Proof. revert l. induction n as [|n IH]; intros l H; [constructor|]. destruct l as [|a l]; [constructor|]. cbn [firstn].
+  inversion H; subst. constructor; [|auto]. intros Hin. apply firstn_incl in Hin. contradiction. Qed.
+
+Corollary nearest_continue_distinct s k n s1 c e : Inv s -> IdInv s -> Clean s -> qnearest kcmp s k = Ok (s1, c, Some e) ->
+  exists l s', walk_n n s1 c [] = Ok (s', l, Nat.ltb (length (abs s)) n) /\
+    length l = Nat.min n (length (abs s)) /\ NoDup l /\ incl l (abs s) /\ (length (abs s) < n -> Permutation l (abs s)).
+Proof. intros HInv HI HC Hq. destruct (nearest_continue s k n s1 c e HInv HI HC Hq) as (xs & s' & Hp & Hw & _).
+  exists (firstn n xs), s'. split; [exact Hw|]. split; [rewrite firstn_length, (Permutation_length Hp); reflexivity|].
+  assert (Hnd : NoDup xs).
+  { apply (Permutation_NoDup (Permutation_sym Hp)). apply sorted_nodup_kv. apply HInv. }
+  split; [apply NoDup_firstn; exact Hnd|]. split.
+  - intros x Hx. apply firstn_incl in Hx. eapply Permutation_in; eauto.
+  - intros Hn. rewrite firstn_all2 by (rewrite (Permutation_length Hp); lia). exact Hp.
+Qed.
+
+(* whatever the stamps are, the calls after a nearest-key search return, hand out entries of the table, at most as many as
+   there are, report the end when asked more often than that, and leave a table that satisfies the invariants *)
+Theorem nearest_walk_total s k n s1 c e : Inv s -> IdInv s -> qnearest kcmp s k = Ok (s1, c, Some e) ->
+  exists s' l b, walk_n n s1 c [] = Ok (s', l, b) /\ length l <= Nat.min n (length (abs s)) /\ incl l (abs s) /\
+    (length (abs s) < n -> b = true) /\ root s' = root s /\ Inv s' /\ IdInv s' /\ (b = true -> Clean s').
+Proof. intros HInv HI Hq. destruct k as [|k0 k]; [rewrite nearest_empty_key in Hq; discriminate|].
+  destruct (nearest_floor s (k0 :: k) HInv HI ltac:(discriminate)) as (s1' & c' & E & Rr & Rn & Rt & Ri & Rd & Hm).
+  rewrite E in Hq. inversion Hq; subst s1' c'. rewrite H2 in Hm. destruct Hm as (x & Hx & -> & -> & P & Hroot).
+  pose proof HI as (Hnd & _). rewrite <- Rr in Hnd, Hx, P, Hroot.
+  destruct (cont_run s1 x (ttid s) Hnd Hx P Hroot) as (xs & Hxs & Hlen & _ & Hw).
+  destruct (Hw n) as (s' & Hwn). assert (HI1 : IdInv s1) by (eapply idinv_same; eauto).
+  destruct (walk_n_inv _ _ _ _ _ _ _ Hwn HI1 ltac:(intros _; cbn [fst]; congruence)) as (A & B & C & D & F).
+  assert (Hsz : size (root s1) = length (abs s)) by (unfold abs; rewrite map_length, <- Rr; apply size_elements).
+  exists s', (map kv (firstn n xs)), (Nat.ltb (length xs) n). split; [exact Hwn|]. split; [rewrite map_length, firstn_length; lia|]. split; [|split].
+  - intros y Hy. apply in_map_iff in Hy as (z & <- & Hz). apply firstn_incl in Hz. rewrite Forall_forall in Hxs. unfold abs. rewrite <- Rr. apply in_map. auto.
+  - intros Hn. apply Nat.ltb_lt. lia.
+  - split; [congruence|]. split; [eapply Inv_same; [| |exact HInv]; congruence|]. split; [exact A|exact F].
+Qed.
 End Iter.
